@@ -109,7 +109,7 @@ theorem select_ok (hE : EnvOK env G) {sh : Shared D L} (h : ShInv env G sh) {s :
   have hpop : ∀ c : CompEditor, CedPostC sh.com c → ShInv env G { sh with com := c.popCursor } := by
     intro c hc
     have h1 := h.setComC hc
-    exact (h1.setComSame (ced_popCursor h1.ced) (by rw [popCursor_inner])).congr rfl rfl rfl rfl rfl
+    exact (h1.setComSame (ced_popCursor h1.ced) (by rw [popCursor_inner])).congr rfl rfl rfl rfl rfl rfl
   have h1 := hs.sel
   unfold Selecting.select
   dsimp only
@@ -137,7 +137,7 @@ theorem select_ok (hE : EnvOK env G) {sh : Shared D L} (h : ShInv env G sh) {s :
       have hc1 := hpop c (hpc.toC (fun s hs => by cases hs))
       refine .ok ⟨?_, fun b hb => (by cases hb), fun st hst => (by cases hst; trivial)⟩
       split
-      · exact (hc1.setComSame (ced_moveRight hc1.ced) rfl).congr rfl rfl rfl rfl rfl
+      · exact (hc1.setComSame (ced_moveRight hc1.ced) rfl).congr rfl rfl rfl rfl rfl rfl
       · exact hc1
     · exact .ok ⟨h, fun _ _ => hs, fun st hst => (by cases hst)⟩
   · next y hy => exact absurd hy (hnt y)
